@@ -86,6 +86,7 @@ type World struct {
 	mu       sync.Mutex
 	gates    map[string]*Event
 	keySeq   map[string]int
+	arrivals []arrival // gates reached since the last quiescent point, not yet keyed
 	provs    []func() []*Event
 	effects  []string
 	hash     [32]byte
@@ -312,14 +313,43 @@ func (w *World) Park(class, base string, outcomes ...string) string {
 		w.mu.Unlock()
 		return "abort"
 	}
-	seq := w.keySeq[base]
-	w.keySeq[base] = seq + 1
-	key := fmt.Sprintf("%s#%03d", base, seq)
-	ev := &Event{Key: key, Class: class, Outcomes: outcomes, since: w.Step, gate: true}
+	// the gate gets its key (base + arrival number) when the world has settled, not now: goroutines that run at
+	// the same time reach gates of the same base in an order the scheduler does not control; admit() numbers such
+	// arrivals by goroutine id, i.e. in the order in which the goroutines were created
+	ev := &Event{Class: class, Outcomes: outcomes, since: w.Step, gate: true}
 	ev.fire = func(o string) { ch <- o }
-	w.gates[key] = ev
+	w.arrivals = append(w.arrivals, arrival{base: base, g: goid(), ev: ev})
 	w.mu.Unlock()
 	return <-ch
+}
+
+type arrival struct {
+	base string
+	g    uint64
+	ev   *Event
+}
+
+// admit gives the gates reached since the last quiescent point their keys. Called by the scheduler's goroutine
+// right after every synctest.Wait.
+func (w *World) admit() {
+	w.mu.Lock()
+	defer w.mu.Unlock()
+	if len(w.arrivals) == 0 {
+		return
+	}
+	sort.SliceStable(w.arrivals, func(i, j int) bool {
+		if w.arrivals[i].base != w.arrivals[j].base {
+			return w.arrivals[i].base < w.arrivals[j].base
+		}
+		return w.arrivals[i].g < w.arrivals[j].g
+	})
+	for _, a := range w.arrivals {
+		seq := w.keySeq[a.base]
+		w.keySeq[a.base] = seq + 1
+		a.ev.Key = fmt.Sprintf("%s#%03d", a.base, seq)
+		w.gates[a.ev.Key] = a.ev
+	}
+	w.arrivals = nil
 }
 
 // AddProvider registers a source of injectable events.
@@ -687,6 +717,7 @@ func RunOnce(t *testing.T, mk func() Scenario, tape *Tape, opt RunOpts) (res Res
 func (w *World) settle() {
 	for {
 		synctest.Wait()
+		w.admit()
 		w.mu.Lock()
 		var first *Event
 		for _, g := range w.gates {
@@ -820,6 +851,7 @@ func (w *World) teardown() {
 	}
 	for i := 0; i < 40; i++ {
 		synctest.Wait()
+		w.admit()
 		w.mu.Lock()
 		gs := make([]*Event, 0, len(w.gates))
 		for _, g := range w.gates {
